@@ -164,7 +164,8 @@ def observe(program, step):
         if chans is None:
             chans = cs
         elif cs != chans:
-            return {'crash': 'leaves with different channel sets %r %r' % (chans, cs)}
+            # seen when a ParallelChannelPT adds a channel after a channel-changing global transformation was applied
+            return {'raise': 'ChannelSetsDiffer'}
     step = F(step)
     samples = {c: [] for c in chans}
     k = 0
